@@ -19,7 +19,7 @@ from valida.datapath import DataPath
 from valida.schema import Schema
 
 META = {
-    "rule": "every history of <= depth transitions Si.add_schema(Tj, R) (3 targets, one of them empty, x 2 sources x 6 roots = 36 per state) "
+    "rule": "every history of <= depth transitions Si.add_schema(Tj, R) (3 targets, one of them empty, x 2 sources x 6 roots = 36 per state; at depth 2 also a composed target as the source, 18 more) "
             "on shared live schema objects built from a 6-rule pool; state = the reference rule lists of the two targets; "
             "executions are histories (each replayed from scratch), none merged; non-trivial = history of >= 2 additions "
             "(same source twice, two targets, or two roots)",
@@ -43,6 +43,8 @@ INIT = {"S1": (R0, R1), "S2": (R4,), "S3": (), "T1": (R1, R2), "T2": (R3, R5, R0
 TARGETS = ("S1", "S2", "S3")
 ROOTS = [(), (("prim", "a"),), (("prim", "a"), ("prim", "b")), (("prim", 0),), (Ls,), (M,)]
 MENU = [(s, t, r) for s in TARGETS for t in ("T1", "T2") for r in range(len(ROOTS))]
+# nested composition: a target that has itself received a schema is added to another target (roots 1, 2, 5 only)
+MENU_NESTED = [(s, t, r) for s in TARGETS for t in TARGETS if s != t for r in (1, 2, 5)]
 
 DOCS = [
     {"a": 1, "b": [1, 0]}, {"a": {"a": 1, "b": [1, -1], "x": "3"}, "b": [2]}, {"a": {"b": {"a": 2, "b": [0]}}},
@@ -95,6 +97,9 @@ def run_unit(unit, tier):
         if ok and len(hist) < depth:
             for nxt in range(len(MENU)):
                 stack.append(hist + [nxt])
+            if len(hist) == 1:
+                for nxt in range(len(MENU_NESTED)):
+                    stack.append(hist + [len(MENU) + nxt])
         if ok and len(hist) >= 2:
             res.count("nontrivial")
     res.sample({"history": [list(MENU[first])], "menu_index": [first]})
@@ -109,14 +114,15 @@ def replay(case):
 
 def run_history(res, hist):
     """Replay the whole history on fresh objects; check all invariants after every transition."""
-    case = {"history": list(hist), "steps": [list(MENU[i]) for i in hist]}
+    ALLM = MENU + MENU_NESTED
+    case = {"history": list(hist), "steps": [list(ALLM[i]) for i in hist]}
     try:
         w = World()
     except BaseException as e:
         res.violation("world-build:%s" % type(e).__name__, "building the schemas raised %r" % (e,), case, observed=repr(e))
         return False
     for n, mi in enumerate(hist):
-        s, t, ri = MENU[mi]
+        s, t, ri = ALLM[mi]
         root_parts = ROOTS[ri]
         last = n == len(hist) - 1
         res.count("transitions")
@@ -131,7 +137,15 @@ def run_history(res, hist):
         if not last:
             continue   # (the prefix was checked when it was itself the history)
         res.states.add(hash(repr(tuple(w.model[k] for k in TARGETS))))
-        # (1) sources intact
+        # (1) sources intact (a composed target used as source must keep the rules it had)
+        if t in TARGETS:
+            got_t = w.obj[t].rules
+            want_t = [T.build_rule(r) for r in w.model[t]]
+            if len(got_t) != len(want_t) or any(not (a.path.parts == b.path.parts and a.condition == b.condition and a.cast == b.cast)
+                                                for a, b in zip(got_t, want_t)):
+                res.violation("source-changed:composed", "after %s.add_schema(%s, ..) the (composed) source %s changed" % (s, t, t), case,
+                              observed=[repr(r) for r in got_t], expected=[T.show(r) for r in w.model[t]])
+                return False
         for k in ("T1", "T2"):
             if snap(w.obj[k]) != w.src_snap[k]:
                 res.violation("source-changed:%s" % ("same" if k == t else "other"),
@@ -167,7 +181,7 @@ def run_history(res, hist):
                                   case, observed=a, expected=b)
                     return False
         # (4) S judges a document as before plus T's judgement of what lies at R (cast-free sources)
-        if not any(r[3] for r in INIT[t]) and not any(r[3] for r in w.model[s]):
+        if t not in TARGETS and not any(r[3] for r in INIT[t]) and not any(r[3] for r in w.model[s]):
             src = T.build_schema(("schema", INIT[t]))
             for d, before in zip(DOCS, before_obs):
                 if before[0] != "ok":
